@@ -107,6 +107,24 @@ func init() {
 
 func runtimeNumGoroutine() int { return runtime.NumGoroutine() }
 
+func init() {
+	// a select statement compiled and run under a cancelled EvalWithContext: the goroutine parked in
+	// reflect.Select must leave when the evaluation is cancelled
+	sel := func(src string) func() (bool, string) {
+		return func() (bool, string) {
+			i := verifNewInterp()
+			before := runtimeNumGoroutine()
+			err := verifCancelledEval(i, src, 50*time.Millisecond)
+			time.Sleep(400 * time.Millisecond)
+			after := runtimeNumGoroutine()
+			return after > before || err != context.Canceled, fmt.Sprintf("EvalWithContext returned %v (want context canceled); goroutines before %d, after %d", err, before, after)
+		}
+	}
+	verifProtocolScenarios = append(verifProtocolScenarios,
+		verifScenario{"C09/interp._select/*", sel(`c, d := make(chan int), make(chan int); select { case v := <-c: println(v); case d <- 1: }`)},
+	)
+}
+
 // C13: a script that obtains an unwrapped *log.Logger can terminate the host. The scenario runs
 // the script in a child process (this test binary re-executed) and reports whether the child died.
 func verifChildEval(src string) (exitCode int, out string) {
